@@ -9,7 +9,7 @@ func dumpFormats(l *Loaded, v2 *Loaded) {
 			fmt.Println("MISSING", name)
 			return
 		}
-		fx := &fmtExtractor{l: ld, decode: decode, condToken: leafCondToken(ld)}
+		fx := &fmtExtractor{l: ld, decode: decode, rawWrites: true, condToken: leafCondToken(ld)}
 		got, tr := fx.sequences(fn)
 		fmt.Printf("--- %s (decode=%v trunc=%v)\n", name, decode, tr)
 		for _, s := range got {
@@ -29,7 +29,16 @@ func dumpFormats(l *Loaded, v2 *Loaded) {
 		show(l, "fastnode", "*Node.WriteBytes", false)
 		show(l, "fastnode", "DeserializeNode", true)
 	}
+	if l != nil {
+		show(l, "internal/encoding", "EncodeBytes", false)
+		show(l, "internal/encoding", "Encode32BytesHash", false)
+		show(l, "internal/encoding", "EncodeUvarint", false)
+		show(l, "internal/encoding", "EncodeVarint", false)
+		show(l, "internal/encoding", "fVarintEncode", false)
+		show(l, "internal/encoding", "init", false)
+	}
 	if v2 != nil {
+		show(v2, "", "EncodeBytes", false)
 		show(v2, "", "*Node.writeHashBytes", false)
 	}
 }
